@@ -6,10 +6,17 @@ def groups(tier):
     G.append(Group('transform.fips', 'sha256', 'C08/transform.c', enforce=T, unwind=65,
                    backend=['cvc5'], kind='constant-unwind', bound='loops of 16/48/64 rounds fully unwound',
                    clause='transform(state, block) == FIPS 180-4 compression for all 2^768 inputs; frame: only state_ written'))
-    G.append(Group('update.stream', 'sha256', 'C08/update.c', enforce='crypto__Sha256__update', replace=[T],
+    G.append(Group('update.stream', 'sha256', 'C08/update.c', enforce='crypto__Sha256__update', replace=[T, 'cxx_memcpy'], timeout=1500, checks=['--bounds-check', '--pointer-check', '--signed-overflow-check'],
                    loop_contracts=True, unwind=65, backend=['sat'], kind='unbounded',
                    clause='update: for every data length, bytes absorbed in order exactly once; transform called on full blocks'))
     G.append(Group('finalize.padding', 'sha256', 'C08/finalize.c', enforce='crypto__Sha256__finalize', replace=[T],
                    unwind=65, backend=['sat'], kind='constant-unwind', bound='fill/length loops <= 64 iterations',
                    clause='finalize: blocks handed to transform are the FIPS padding; digest is big-endian state'))
+    HS = ['crypto__Sha256__Sha256__ctor', 'crypto__Sha256__update', 'crypto__Sha256__finalize', 'crypto__Sha256__digest']
+    G.append(Group('hmac.compute', 'hmac', 'C08/hmac_rfc2104.c', entry='h_compute', replace=HS, unwind=66, backend=['sat'], kind='constant-unwind',
+                   bound='key-block loops of 64 iterations; key and data lengths symbolic and unbounded',
+                   clause='compute == H((K0^opad) | H((K0^ipad) | data)), K0 = key padded, or SHA(key) iff |key| > 64'))
+    G.append(Group('hmac.verify', 'hmac', 'C08/hmac_rfc2104.c', entry='h_verify', replace=['crypto__HmacSha256__compute'], unwind=34,
+                   backend=['sat'], kind='constant-unwind', bound='32-byte comparison loop',
+                   clause='verify <=> |mac| == 32 and mac == compute(key, data)'))
     return G
